@@ -1,6 +1,7 @@
 import Solstat.Check
 import Solstat.Analyze
 import Solstat.Dir
+import Solstat.Report
 open Solstat Solstat.Gen
 
 def splitTabs (s : String) : List String := s.splitOn "\t"
@@ -209,6 +210,68 @@ def handleDir (cat patterns treeEnc gtab impl : String) : Verdict :=
   { kind := "DIR", group := cat, agree := agree, oracle := oracle.1,
     detail := if agree != "D" && oracle.1 != "VIOL" then "" else s!"{oracle.2}|model={mtext}|impl={impl}" }
 
+/-- the oracle on one category part of a report (C11, C12): entries read back = findings; totals; headings -/
+def reportOracle (cat : String) (names : List (String × Files)) (lines : List String) : Option String :=
+  let rb := readBack allSignatures lines
+  let want : List (String × String × Nat) := names.flatMap fun (p, fs) => fs.flatMap fun (f, ls) => ls.map fun l => (p, f, l)
+  let key (t : String × String × Nat) : String := t.1 ++ "\t" ++ t.2.1 ++ "\t" ++ toString t.2.2
+  let sortS (xs : List String) : List String := (xs.toArray.qsort (· < ·)).toList
+  let withFindings := (names.filter (fun e => e.2.any (fun fl => !fl.2.isEmpty))).map (·.1)
+  if !rb.malformed.isEmpty then some s!"malformed list line: {rb.malformed.head!}"
+  else if sortS (rb.out.map key) != sortS (want.map key) then some s!"entries read back differ from the findings: {repr rb.out}"
+  else if sortS rb.sectionsSeen.eraseDups != sortS withFindings.eraseDups then some s!"sections present {rb.sectionsSeen} but patterns with findings {withFindings}"
+  else
+    let total := if cat == "opt" then overviewTotal Gen.sec_opt_overview_linePre Gen.sec_opt_overview_linePost lines
+                 else if cat == "vuln" then overviewTotal Gen.sec_vuln_overview_linePre Gen.sec_vuln_overview_linePost lines
+                 else some (countEntryLines lines)
+    if total != some (countEntryLines lines) then some s!"overview total {repr total} but {countEntryLines lines} entries listed"
+    else if cat == "vuln" then
+      let sevOf (p : String) : Gen.Severity := match vulnOfName p with | some v => severityOf v | none => .Low
+      let has (sv : Gen.Severity) : Bool := withFindings.any (fun p => sevOf p == sv)
+      let bad := [("## High Risk", Gen.Severity.High), ("## Medium Risk", .Medium), ("## Low Risk", .Low)].filter fun (h, sv) =>
+        lines.contains h != has sv
+      match bad with
+      | [] => none
+      | (h, _) :: _ => some s!"heading `{h}` printed iff-mismatch"
+    else none
+
+def handleRender (cat enc implHex same : String) : Verdict :=
+  if implHex == "PANIC" then { kind := "RENDER", group := cat, agree := "D", oracle := "VIOL", detail := "panic" } else
+  let implLines := reportLinesOfHex implHex
+  let (modelLines, names) : List String × List (String × Files) :=
+    if cat == "opt" then
+      let F := decodeFindings optOfName enc
+      ((optimizationReport optCategory F).map Line.render, F.map fun e => (e.1.name, e.2))
+    else if cat == "vuln" then
+      let F := decodeFindings vulnOfName enc
+      ((vulnerabilityReport vulnCategory F).map Line.render, F.map fun e => (e.1.name, e.2))
+    else
+      let F := decodeFindings qaOfName enc
+      ((qaReport qaCategory F).map Line.render, F.map fun e => (e.1.name, e.2))
+  let orc := reportOracle cat names implLines
+  let firstDiff := ((modelLines.zip implLines).find? (fun p => p.1 != p.2)).map (fun p => s!"model `{p.1}` impl `{p.2}`")
+  { kind := "RENDER", group := cat, agree := if modelLines == implLines then "A" else "D",
+    oracle := if same != "same" then "VIOL" else match orc with | none => "ok" | some _ => "VIOL",
+    detail := if same != "same" then "order: the same findings inserted in another order render differently"
+              else match orc with
+                | some w => w
+                | none => if modelLines == implLines then "" else s!"first difference: {firstDiff.getD "length"} ({modelLines.length} vs {implLines.length} lines)" }
+
+def handleFull (v o q implHex : String) : Verdict :=
+  if implHex == "PANIC" || implHex == "MISSING" then { kind := "FULLREPORT", agree := "D", oracle := "VIOL", detail := implHex } else
+  let implLines := reportLinesOfHex implHex
+  let V := decodeFindings vulnOfName v
+  let O := decodeFindings optOfName o
+  let Q := decodeFindings qaOfName q
+  let modelLines := (fullReport vulnCategory optCategory qaCategory V O Q).map Line.render
+  -- oracle (C12 part presence, C18 overwrite): a category part is present iff its map is non-empty; nothing of the stale report survives
+  let hasV := implLines.any (fun l => l.startsWith Gen.sec_vuln_overview_linePre)
+  let hasO := implLines.any (fun l => l.startsWith Gen.sec_opt_overview_linePre)
+  let stale := implLines.contains "stale report of a previous run"
+  let ok := hasV == !V.isEmpty && hasO == !O.isEmpty && !stale
+  { kind := "FULLREPORT", agree := if modelLines == implLines then "A" else "D", oracle := if ok then "ok" else "VIOL",
+    detail := if modelLines == implLines && ok then "" else s!"parts/stale mismatch or model difference ({modelLines.length} vs {implLines.length} lines)" }
+
 def step (st : St) (line : String) : St × Option Verdict :=
   match splitTabs line with
   | ["ROOT", rid, ty, dbg] =>
@@ -239,6 +302,8 @@ def step (st : St) (line : String) : St × Option Verdict :=
     let st := { st with detImpl := truncate 2000 (((fid, det), impl) :: st.detImpl) }
     (st, some (handleDet st fid det impl))
   | ["LINES", fid, cat, variant, _fileNo, impl] => (st, some (handleLines st fid cat variant impl))
+  | ["RENDER", cat, enc, implHex, same] => (st, some (handleRender cat enc implHex same))
+  | ["FULLREPORT", v, o, q, implHex] => (st, some (handleFull v o q implHex))
   | ["DIR", cat, patterns, treeEnc, gtab, impl] => (st, some (handleDir cat patterns treeEnc gtab impl))
   | ["THREADS", calls, mismatches] =>
     (st, some { kind := "THREADS", agree := if mismatches == "0" then "A" else "D", oracle := if mismatches == "0" then "ok" else "VIOL",
